@@ -150,6 +150,7 @@ type simConn struct {
 	buf          []byte
 	done         bool // handler returned
 	dead         bool // reset
+	halfDead     bool // the client's side is gone; the server learns of it at its next write
 	wake         chan struct{}
 	space        chan struct{}
 	cancel       context.CancelFunc
@@ -184,6 +185,23 @@ func (c *simConn) reset(why string) {
 	c.markHeader()
 	c.poke(c.wake)
 	c.poke(c.space)
+}
+
+// resetClientSide breaks the connection as the client sees it (its reads
+// fail now); the server side keeps its context and learns of the loss only
+// when it next writes to the connection - a half-open connection, as after a
+// client that restarted or a path that dropped the FIN/RST.
+func (c *simConn) resetClientSide(why string) {
+	c.mu.Lock()
+	if c.dead || c.halfDead {
+		c.mu.Unlock()
+		return
+	}
+	c.halfDead = true
+	c.mu.Unlock()
+	c.net.r.Logf("net: %s reset on the client's side only (%s)", c, why)
+	c.markHeader()
+	c.poke(c.wake)
 }
 
 func (c *simConn) markHeader() {
@@ -226,6 +244,11 @@ func (w *respWriter) Write(p []byte) (int, error) {
 	}
 	for {
 		c.mu.Lock()
+		if c.halfDead && !c.dead {
+			c.mu.Unlock()
+			c.reset("write on a half-open connection")
+			return 0, errConnReset
+		}
 		if c.dead {
 			c.mu.Unlock()
 			return 0, errConnReset
@@ -286,7 +309,7 @@ func (b *respBody) Read(p []byte) (int, error) {
 			c.poke(c.space)
 			return n, nil
 		}
-		if c.dead {
+		if c.dead || c.halfDead {
 			c.mu.Unlock()
 			return 0, errConnReset
 		}
@@ -303,7 +326,8 @@ func (b *respBody) Close() error {
 	c := b.c
 	c.mu.Lock()
 	c.clientClosed = true
-	already := c.dead || c.done
+	// (on a half-open connection the client's close does not reach the server either)
+	already := c.dead || c.done || c.halfDead
 	c.mu.Unlock()
 	if !already {
 		c.reset("client-close")
